@@ -3,6 +3,7 @@
    dump to the extracted checker; the btree half uses the proved btree checker of C04). *)
 From Coq Require Import NArith List Bool Arith Permutation.
 From PDB Require Import Model.StorageCheck Proofs.StorageCheckProofs Model.TableAlloc Proofs.TableAllocProofs Proofs.TableChainProofs.
+From PDB Require Model.MultiTree Proofs.MultiTreeForest.
 Import ListNotations.
 Open Scope N_scope.
 
@@ -119,6 +120,25 @@ Example C14_nonvacuous :
   t_ok (check_table {| filled := 8; free_head := 4; slots := [RHead 6; RFree 0; RSize; RSize; RFree 2; RPart 3; RSize] |}) = false.
 Proof. vm_compute. repeat split; reflexivity. Qed.
 
+(* "node reference counts equal the number of referencing parents", "no unreachable node": the forest theorems of
+   C10 (Proofs/MultiTreeForest.v), restated where C14 asks for them. For histories of single-operation transactions
+   processed one by one on a column that is not append-only: the count of every stored node is the number of
+   references to it from roots and stored nodes, and every stored node is referenced (its count is at least one and
+   equals that number), so a column without roots stores nothing. *)
+Module Nodes.
+Import PDB.Model.MultiTree PDB.Proofs.MultiTreeForest.
+Theorem C14_node_counts_equal_referencing_parents :
+  forall cf s id, m_append_only cf = false -> forest_run cf s -> In id (map fst (nodes s)) ->
+  N.to_nat (cnt s id) = (count_occ N.eq_dec (kids_r (roots s)) id + count_occ N.eq_dec (kids_n (nodes s)) id)%nat /\ (1 <= cnt s id)%N.
+Proof.
+  intros cf s id Hao Hr Hid. split; [exact (count_is_number_of_references cf s id Hao Hr Hid)|].
+  destruct (forest_inv cf s Hao Hr) as [_ [HJ _]]. apply cnt_pos. exact (j_nrc s [] HJ).
+Qed.
+Theorem C14_no_root_no_node :
+  forall cf s, m_append_only cf = false -> forest_run cf s -> roots s = [] -> nodes s = [] /\ nrc s = [] /\ num_entries s = 0%N.
+Proof. exact all_dereferenced_is_empty. Qed.
+End Nodes.
+
 Print Assumptions C14_accepted_table_is_partitioned.
 Print Assumptions C14_no_slot_twice.
 Print Assumptions C14_no_slot_leaked.
@@ -130,3 +150,5 @@ Print Assumptions C14_store_keeps_partition.
 Print Assumptions C14_remove_keeps_partition.
 Print Assumptions C14_replace_keeps_partition.
 Print Assumptions C14_reachable_tables_partitioned.
+Print Assumptions Nodes.C14_node_counts_equal_referencing_parents.
+Print Assumptions Nodes.C14_no_root_no_node.
